@@ -2,6 +2,14 @@
 PENDING_REASON = "static rules designed in DESIGN.md §3 but the check is not registered yet (under construction)"
 
 CLAIMS = {
+    "C17": {
+        "technique": "static analysis: effect analysis of the selection function, return-value provenance against the eligibility filter, dominance order of the reason returns, who-may-call + must-pass of stage calls before each yield check, def-use of slice caps into min()/slice clamps",
+        "text": "Decides: next_turn is effect-free and reads time only through ctx.now_ms(); every returned agent comes from the list filtered by consec < max_consecutive_turns, or is min(queue) with RESET_CONSEC exactly where "
+                "that list is empty; on_yield stamps the injected clock, adds exactly one, and zeroes all counters on reset; _should_yield tests wall before budgets before quantum on every path with each budget reason comparing "
+                "its own counter; _should_yield is called only from run_turn, after the stage it names, and every yield return follows the scheduler event and a yielded turn record; slice caps reach the T1 loop guards, the T2 hits used "
+                "and the T3 op cap only through min()/slice clamps.",
+        "note": "Not decided: the starvation bound 2*(agents-1)*allowance+1 and any other property of infinite selection/yield histories (liveness - needs model checking, a different technique); the driver-side queue rotation in scripts/demo.py.",
+    },
     "C18": {
         "technique": "static analysis: reaching-definition shape of every weight store, interval argument from the syntactic shape of the decay factor and its guards, must-pass of a total-key sort before truncation, key provenance at edge insertions, write-set and gate-dominance checks, one cross-module obligation against the validator",
         "text": "Decides on gel.py: observations store only _clamp(., graph.update.clamp_min, clamp_max); a tick stores only previous*factor with factor 0.0 or c**(max(0,dt)/half_life>0), c in (0,1), "
